@@ -16,7 +16,7 @@ class Unsupported(Exception):
 def parse_type(s):
     """'list str' | 'dict cb' | 'option sized' | 'set int' | 'tuple str,str' | 'fun view -> bool' | base"""
     s = s.strip()
-    for head in ('list', 'dict', 'option', 'set'):
+    for head in ('list', 'dict', 'zdict', 'option', 'set', 'orexn'):
         if s.startswith(head + ' '):
             return (head, parse_type(s[len(head) + 1:]))
     if s.startswith('tuple '):
@@ -46,6 +46,10 @@ class Types:
             r = 'list %s' % self.coq(t[1], False)
         elif h == 'dict':
             r = 'dict %s' % self.coq(t[1], False)
+        elif h == 'zdict':
+            r = 'zdict %s' % self.coq(t[1], False)
+        elif h == 'orexn':
+            r = '%s + exn' % self.coq(t[1], False)
         elif h == 'option':
             r = 'option %s' % self.coq(t[1], False)
         elif h == 'tuple':
@@ -58,7 +62,7 @@ class Types:
 
     def default(self, t, node):
         h = t[0]
-        if h in ('list', 'set', 'dict'):
+        if h in ('list', 'set', 'dict', 'zdict'):
             return '[]'
         if h == 'option':
             return 'None'
@@ -70,7 +74,7 @@ class Types:
         return d
 
     def eqb(self, t, node):
-        if t[0] in ('list', 'set', 'dict', 'option', 'tuple', 'fun'):
+        if t[0] in ('list', 'set', 'dict', 'zdict', 'orexn', 'option', 'tuple', 'fun'):
             raise Unsupported(node, 'equality on values of type %s' % t[0])
         e = self.base(t).get('eqb')
         if e is None:
